@@ -698,10 +698,12 @@ class Header(Iterable):
         n = 0
         nn = self.n
         for v in self._instream:
-            if n >= nn:
-                break
             yield v
             n += 1
+            if n >= nn:
+                # Stop here rather than at the top of the next round,
+                # which would pull one more element out of `instream`.
+                break
 
 
 class Tailer(Iterable):
